@@ -1,5 +1,5 @@
 """C17 — builders are lossless and order preserving; PhantomData members are erased."""
-from ..lib import facts, mir, paths, who
+from ..lib import symrun, absint, facts, mir, paths, who
 from ..lib.mir import path_str, is_call, unref, is_adt_agg, agg_field
 from . import common_registry as cr, common_identity as ci
 
@@ -270,51 +270,63 @@ def initial_states(chk, prog, cfg):
               "VariantBuilder::new, FieldsBuilder::default, Fields::unit/named/unnamed, Variants::new/default")
 
 
+def _fn_paths(prog, name):
+    return sorted(p for p in prog.fns if mir.strip_generics(p) == "scale_info::build::" + name)
+
+
+def _eq_fields(v, adt, want):
+    """is v the struct `adt` whose fields are exactly `want` {name: value}?"""
+    if not symrun.is_struct(v, adt):
+        return False
+    return all(symrun.field(v, k) == x for k, x in want.items()) and set(v[4]) == set(want)
+
+
 def finalisers(chk, prog, cfg):
-    chk.rule("R17.2", "finalisers hand each slot to the like-named field: build -> Type::new(path, type_params, def, docs); FieldBuilder::finalize -> "
-             "Field::new(name, ty, type_name, docs); VariantBuilder::finalize -> Variant::new(name, fields, index, docs); "
-             "Variants::finalize -> TypeDefVariant::new(variants); FieldsBuilder::finalize -> fields; composite/variant route through build")
-    specs = [
-        ("TypeBuilder::build", "scale_info::ty::Type::new", {0: "path", 1: "type_params", 3: "docs"}, {2: 2}),
-        ("FieldBuilder::finalize", "scale_info::ty::fields::Field::new", {0: "name", 1: "ty", 2: "type_name", 3: "docs"}, {}),
-        ("VariantBuilder::finalize", "scale_info::ty::variant::Variant::new", {0: "name", 1: "fields", 2: "index", 3: "docs"}, {}),
-        ("Variants::finalize", "scale_info::ty::variant::TypeDefVariant::new", {0: "variants"}, {}),
+    chk.rule("R17.2", "finalisers, decided on the VALUE they produce (symbolic run, crate-local callees and constructors interpreted): "
+             "FieldBuilder::finalize = Field{name, ty (the assigned one), type_name, docs} of self; VariantBuilder::finalize = Variant{name, fields, index "
+             "(the assigned one), docs} of self; Variants::finalize = TypeDefVariant{variants: self.variants}; FieldsBuilder::finalize = self.fields; "
+             "TypeBuilder::composite(fields) = Type{path (the assigned one), type_params, TypeDef::Composite{fields.fields}, docs}; "
+             "TypeBuilder::variant(vs) = Type{.., TypeDef::Variant{vs.variants}, ..}")
+    S = symrun.Sym
+    TY = "scale_info::ty::"
+    self_of = lambda adt, **kw: symrun.struct(prog, B + adt, "self", **kw)
+
+    def typ(defv):
+        return {"path": S("P"), "type_params": S("self.type_params"), "type_def": defv, "docs": S("self.docs")}
+    cases = [
+        ("FieldBuilder::finalize", lambda: [self_of("FieldBuilder", ty=absint.some(S("TY")))],
+         lambda v: _eq_fields(v, TY + "fields::Field", {"name": S("self.name"), "ty": S("TY"), "type_name": S("self.type_name"), "docs": S("self.docs")})),
+        ("VariantBuilder::finalize", lambda: [self_of("VariantBuilder", index=absint.some(S("IDX")))],
+         lambda v: _eq_fields(v, TY + "variant::Variant", {"name": S("self.name"), "fields": S("self.fields"), "index": S("IDX"), "docs": S("self.docs")})),
+        ("Variants::finalize", lambda: [self_of("Variants")],
+         lambda v: _eq_fields(v, TY + "variant::TypeDefVariant", {"variants": S("self.variants")})),
+        ("FieldsBuilder::finalize", lambda: [self_of("FieldsBuilder")], lambda v: v == S("self.fields")),
+        ("TypeBuilder::composite", lambda: [self_of("TypeBuilder", path=absint.some(S("P"))), symrun.struct(prog, B + "FieldsBuilder", "fields")],
+         lambda v: symrun.is_struct(v, TY + "Type") and set(v[4]) == {"path", "type_params", "type_def", "docs"}
+         and all(symrun.field(v, k) == x for k, x in typ(None).items() if k != "type_def")
+         and symrun.is_struct(symrun.field(v, "type_def"), TY + "TypeDef", "Composite")
+         and _eq_fields(symrun.field(v, "type_def")[2][0], TY + "composite::TypeDefComposite", {"fields": S("fields.fields")})),
+        ("TypeBuilder::variant", lambda: [self_of("TypeBuilder", path=absint.some(S("P"))), symrun.struct(prog, B + "Variants", "vs")],
+         lambda v: symrun.is_struct(v, TY + "Type") and set(v[4]) == {"path", "type_params", "type_def", "docs"}
+         and all(symrun.field(v, k) == x for k, x in typ(None).items() if k != "type_def")
+         and symrun.is_struct(symrun.field(v, "type_def"), TY + "TypeDef", "Variant")
+         and _eq_fields(symrun.field(v, "type_def")[2][0], TY + "variant::TypeDefVariant", {"variants": S("vs.variants")})),
     ]
-    for fn, ctor, slotmap, parammap in specs:
-        b = cr.anchor(chk, prog, "build::" + fn)
-        if b is None:
+    for fn, mk, good in cases:
+        ps = _fn_paths(prog, fn)
+        if not ps:
+            chk.anchor_missing("build::" + fn)
             continue
-        rt = b.return_term()
-        ok = is_call(rt, ctor) and len(b.calls_to(ctor)) == 1
-        detail = path_str(rt)[:200]
-        if ok:
-            for i, slot in slotmap.items():
-                a = rt[2][i]
-                if is_call(a, "core::option::Option::expect", nargs=2) or is_call(a, "core::option::Option::unwrap", nargs=1):
-                    a = a[2][0]
-                ap = paths.access_path(b, a)
-                if not (ap is not None and ap[0] == cr.arg(b, 1) and ap[1] == "." + slot and not mir.calls_in(a)):
-                    ok = False
-                    detail = "argument %d of %s is %s, expected self.%s" % (i, ctor.split("::")[-2] + "::new", path_str(rt[2][i])[:80], slot)
-            for i, p in parammap.items():
-                if rt[2][i] != cr.arg(b, p):
-                    ok = False
-                    detail = "argument %d is %s, expected the parameter" % (i, path_str(rt[2][i])[:80])
-        chk.expect(ok, "R17.2", fn, b.where(), detail, cfg)
-    b = cr.anchor(chk, prog, "build::FieldsBuilder::finalize")
-    if b is not None:
-        chk.expect(cr.self_field(b, b.return_term(), "fields") and not b.calls(), "R17.2", "FieldsBuilder::finalize", b.where(), path_str(b.return_term()), cfg)
-    b = cr.anchor(chk, prog, "build::TypeBuilder::composite")
-    if b is not None:
-        rt = b.return_term()
-        ok = is_call(rt, "TypeBuilder::build", nargs=2) and rt[2][0] == cr.arg(b, 1) and is_call(rt[2][1], "scale_info::ty::composite::TypeDefComposite::new", nargs=1) \
-            and is_call(rt[2][1][2][0], "FieldsBuilder::finalize", nargs=1) and rt[2][1][2][0][2][0] == cr.arg(b, 2)
-        chk.expect(ok, "R17.2", "TypeBuilder::composite", b.where(), path_str(rt)[:200], cfg)
-    b = cr.anchor(chk, prog, "build::TypeBuilder::variant")
-    if b is not None:
-        rt = b.return_term()
-        ok = is_call(rt, "TypeBuilder::build", nargs=2) and rt[2][0] == cr.arg(b, 1) and is_call(rt[2][1], "Variants::finalize", nargs=1) and rt[2][1][2][0] == cr.arg(b, 2)
-        chk.expect(ok, "R17.2", "TypeBuilder::variant", b.where(), path_str(rt)[:200], cfg)
+        for p in ps:
+            b = prog.body(p)
+            r = symrun.Run(prog)
+            try:
+                v = r.run(p, mk())
+                ok = good(v) and not r.log
+                detail = "produces %s%s" % (symrun.show(v)[:260], (" with effects %s" % [x[0] for x in r.log]) if r.log else "")
+            except absint.Unrecognised as e:
+                ok, detail = False, "cannot interpret: %s" % e
+            chk.expect(ok, "R17.2", fn, b.where(), detail, cfg)
 
 
 CTORS = [
@@ -373,52 +385,102 @@ def accumulation(chk, prog, cfg):
              "arguments, push_field pushes the given field; Variants.variants and FieldsBuilder.fields have no other writer")
     allowed = {
         (B + "Variants", "variants"): {("scale_info::build::Variants::variant", "alloc::vec::Vec::push"), ("scale_info::build::Variants::variant_unit", "alloc::vec::Vec::push")},
-        (B + "FieldsBuilder", "fields"): {("scale_info::build::FieldsBuilder::push_field", "alloc::vec::Vec::push")},
+        (B + "FieldsBuilder", "fields"): {("scale_info::build::FieldsBuilder::push_field", "alloc::vec::Vec::push"), ("scale_info::build::FieldsBuilder::field", "alloc::vec::Vec::push"),
+                                          ("scale_info::build::FieldsBuilder::field_portable", "alloc::vec::Vec::push")},
     }
     for (adt, field), allow in sorted(allowed.items()):
         for m in who.field_mutations(prog, adt, field):
             owner = mir.strip_generics(m[1].path)
             if m[0] == "call":
                 key = (owner, m[3])
-                chk.expect(key in allow, "R17.3", "write:%s.%s:%s:%s" % (adt.split("::")[-1], field, owner.split("::")[-1], m[3].split("::")[-1]),
+                chk.expect(key in allow or (m[3] in {a[1] for a in allow} and who.owner_ok(prog, owner, {a[0] for a in allow})), "R17.3", "write:%s.%s:%s:%s" % (adt.split("::")[-1], field, owner.split("::")[-1], m[3].split("::")[-1]),
                            m[1].where(m[2]), "%s.%s mutated by %s in %s" % (adt.split("::")[-1], field, m[3], owner), cfg)
             else:
                 chk.fail("R17.3", "write:%s.%s:%s:%s" % (adt.split("::")[-1], field, owner.split("::")[-1], m[0]), m[1].where(m[2]),
                          "%s.%s written by a %s in %s" % (adt.split("::")[-1], field, m[0], owner), cfg)
-    # what is pushed
-    b = cr.anchor(chk, prog, "build::Variants::variant")
-    if b is not None:
-        ps = b.calls_to("alloc::vec::Vec::push")
-        ok = False
-        if len(ps) == 1:
-            v = b.operand_term(ps[0][1]["args"][1])
-            if is_call(v, "VariantBuilder::finalize", nargs=1):
-                c = v[2][0]
-                # builder(VariantBuilder::new(name))
-                if c[0] == "call" and len(c[2]) == 2 and unref(c[2][0]) == cr.arg(b, 3):
-                    tup = c[2][1]
-                    ok = tup[0] == "agg" and tup[1] == "tuple" and len(tup[3]) == 1 and is_call(tup[3][0], "VariantBuilder::new", nargs=1) and tup[3][0][2][0] == cr.arg(b, 2)
-        chk.expect(ok, "R17.3", "Variants::variant:pushes", b.where(), path_str(b.operand_term(ps[0][1]["args"][1]))[:200] if ps else "no push", cfg)
-    b = cr.anchor(chk, prog, "build::Variants::variant_unit")
-    if b is not None:
-        ps = b.calls_to("alloc::vec::Vec::push")
-        ok = False
-        if len(ps) == 1:
-            v = b.operand_term(ps[0][1]["args"][1])
-            if is_call(v, "VariantBuilder::finalize", nargs=1) and is_call(v[2][0], "VariantBuilder::index", nargs=2):
-                i = v[2][0]
-                ok = is_call(i[2][0], "VariantBuilder::new", nargs=1) and i[2][0][2][0] == cr.arg(b, 2) and i[2][1] == cr.arg(b, 3)
-        chk.expect(ok, "R17.3", "Variants::variant_unit:pushes", b.where(), path_str(b.operand_term(ps[0][1]["args"][1]))[:200] if ps else "no push", cfg)
-    for fn in [p for p in prog.fns if mir.strip_generics(p) in ("scale_info::build::FieldsBuilder::field", "scale_info::build::FieldsBuilder::field_portable")]:
-        bb_ = prog.body(fn)
-        rt = bb_.return_term()
-        ok = False
-        if is_call(rt, "FieldsBuilder::push_field", nargs=2) and rt[2][0] == cr.arg(bb_, 1) and is_call(rt[2][1], "FieldBuilder::finalize", nargs=1):
-            c = rt[2][1][2][0]
-            if c[0] == "call" and len(c[2]) == 2 and unref(c[2][0]) == cr.arg(bb_, 2):
-                tup = c[2][1]
-                ok = tup[0] == "agg" and tup[1] == "tuple" and len(tup[3]) == 1 and is_call(tup[3][0], "FieldBuilder::new", nargs=0)
-        chk.expect(ok, "R17.3", "FieldsBuilder::%s%s" % (fn.split("::")[-1], _impl_suffix(fn)), bb_.where(), path_str(rt)[:200], cfg)
+    # what is pushed (symbolic run: delegation between the methods, helper extraction and closures make no difference)
+    S = symrun.Sym
+    TY = "scale_info::ty::"
+
+    class R(symrun.Run):
+        """the user's closure is opaque: applying it yields a fresh builder in the state the signature demands"""
+
+        def handler(self, name, args, t):
+            sp = mir.strip_generics(name)
+            if sp.split("::")[-1] in ("call_once", "call_mut", "call") and "ops::function" in sp and len(args) == 2 and args[0] == S("USER_FN"):
+                a = args[1][1][0] if isinstance(args[1], tuple) and args[1][0] == "tuple" and args[1][1] else args[1]
+                self.log.append(("apply", a))
+                if symrun.is_struct(a, B + "VariantBuilder"):
+                    return symrun.struct(prog, B + "VariantBuilder", "built", index=absint.some(S("built.index!")))
+                if symrun.is_struct(a, B + "FieldBuilder"):
+                    return symrun.struct(prog, B + "FieldBuilder", "built", ty=absint.some(S("built.ty!")))
+                return None
+            return symrun.Run.handler(self, name, args, t)
+
+    def empty_builder(v, adt, keep=()):
+        if not symrun.is_struct(v, B + adt):
+            return False
+        for n, x in zip(v[4], v[2]):
+            if n in keep:
+                continue
+            if not (absint.opt_view(x) == ("None",) or x == symrun.EMPTY_VEC or symrun.is_struct(x, "core::marker::PhantomData")):
+                return False
+        return True
+
+    def built_variant(v):
+        return _eq_fields(v, TY + "variant::Variant", {"name": S("built.name"), "fields": S("built.fields"), "index": S("built.index!"), "docs": S("built.docs")})
+
+    def built_field(v):
+        return _eq_fields(v, TY + "fields::Field", {"name": S("built.name"), "ty": S("built.ty!"), "type_name": S("built.type_name"), "docs": S("built.docs")})
+
+    def judge(fn_key, p, args, scen, good):
+        b = prog.body(p)
+        r = R(prog, scen)
+        try:
+            v = r.run(p, args)
+            ok, detail = good(v, r.log)
+            detail = "%s; effects: %s" % (detail, [(x[0],) + tuple(symrun.show(y)[:90] for y in x[1:]) for x in r.log])
+        except absint.Unrecognised as e:
+            ok, detail = False, "cannot interpret: %s" % e
+        chk.expect(ok, "R17.3", fn_key, b.where(), detail[:600], cfg)
+
+    for p in _fn_paths(prog, "Variants::variant"):
+        def good(v, log):
+            ap = [x for x in log if x[0] == "apply"]
+            pu = [x for x in log if x[0] == "push"]
+            ok = len(ap) == 1 and empty_builder(ap[0][1], "VariantBuilder", keep=("name",)) and symrun.field(ap[0][1], "name") == S("NAME") \
+                and len(pu) == 1 and pu[0][1] == S("self.variants") and built_variant(pu[0][2]) and log.index(ap[0]) < log.index(pu[0]) \
+                and _eq_fields(v, B + "Variants", {"variants": S("self.variants")})
+            return ok, "the closure is applied once to VariantBuilder::new(name); what it returns is finalised and pushed"
+        judge("Variants::variant:pushes", p, [symrun.struct(prog, B + "Variants", "self"), S("NAME"), S("USER_FN")], {}, good)
+    for p in _fn_paths(prog, "Variants::variant_unit"):
+        def good(v, log):
+            pu = [x for x in log if x[0] == "push"]
+            ok = len(pu) == 1 and pu[0][1] == S("self.variants") and not [x for x in log if x[0] == "apply"] and \
+                _eq_fields(pu[0][2], TY + "variant::Variant", {"name": S("NAME"), "fields": symrun.EMPTY_VEC, "index": S("INDEX"), "docs": symrun.EMPTY_VEC}) \
+                and _eq_fields(v, B + "Variants", {"variants": S("self.variants")})
+            return ok, "pushes Variant{name, no fields, index, no docs}"
+        judge("Variants::variant_unit:pushes", p, [symrun.struct(prog, B + "Variants", "self"), S("NAME"), S("INDEX")], {}, good)
+    for fname in ("FieldsBuilder::field", "FieldsBuilder::field_portable"):
+        for p in _fn_paths(prog, fname):
+            meta = "MetaForm" in p
+            for phantom in ((False, True) if meta else (False,)):
+                def good(v, log, phantom=phantom, meta=meta):
+                    ap = [x for x in log if x[0] == "apply"]
+                    pu = [x for x in log if x[0] == "push"]
+                    isph = [x for x in log if x[0] == "is_phantom"]
+                    ok = len(ap) == 1 and empty_builder(ap[0][1], "FieldBuilder") and symrun.is_struct(v, B + "FieldsBuilder") and symrun.field(v, "fields") == S("self.fields")
+                    if meta:
+                        ok = ok and isph == [("is_phantom", S("built.ty!"))]
+                    else:
+                        ok = ok and not isph
+                    if phantom:
+                        ok = ok and not pu
+                    else:
+                        ok = ok and len(pu) == 1 and pu[0][1] == S("self.fields") and built_field(pu[0][2])
+                    return ok, "the closure is applied once to FieldBuilder::new(); the finalised field is %s" % ("dropped (its type is PhantomData)" if phantom else "pushed")
+                judge("FieldsBuilder::%s%s%s" % (fname.split("::")[-1], _impl_suffix(p), ":phantom" if phantom else ""), p,
+                      [symrun.struct(prog, B + "FieldsBuilder", "self"), S("USER_FN")], {"is_phantom": phantom}, good)
 
 
 def _is_drop_flag(b, sw):
@@ -441,52 +503,36 @@ def phantom(chk, prog, cfg):
     chk.rule("R17.4", "phantom erasure: MetaForm push_field pushes exactly when !field.ty.is_phantom() (of the pushed field); "
              "TypeDefTuple<MetaForm> is built only by TypeDefTuple::new through filter(!is_phantom); the PortableForm push_field "
              "pushes unconditionally; FieldsBuilder values are only built empty (Default)")
+    S = symrun.Sym
     pfs = [p for p in prog.fns if mir.strip_generics(p) == "scale_info::build::FieldsBuilder::push_field"]
-    seen = set()
+    # (when push_field has been inlined into field / field_portable, the same behaviour is decided there by R17.3's phantom scenarios)
     for p in pfs:
         b = prog.body(p)
         form = "PortableForm" if "PortableForm" in p else "MetaForm"
-        seen.add(form)
-        ps = b.calls_to("alloc::vec::Vec::push")
-        if len(ps) != 1:
-            chk.fail("R17.4", "push_field<%s>" % form, b.where(), "%d push calls" % len(ps), cfg)
+        res = {}
+        try:
+            for phantom in (False, True):
+                r = symrun.Run(prog, {"is_phantom": phantom})
+                f = symrun.struct(prog, "scale_info::ty::fields::Field", "f")
+                v = r.run(p, [symrun.struct(prog, B + "FieldsBuilder", "self"), f])
+                pu = [x for x in r.log if x[0] == "push"]
+                isph = [x for x in r.log if x[0] == "is_phantom"]
+                res[phantom] = (pu, isph, v, f)
+        except absint.Unrecognised as e:
+            chk.unrecognised("R17.4", "push_field<%s>" % form, b.where(), "cannot interpret: %s" % e, cfg)
             continue
-        pbb, pt = ps[0]
-        val = b.operand_term(pt["args"][1])
-        tgt_ok = paths.access_path(b, b.operand_term(pt["args"][0]))
-        FIELD = cr.arg(b, 2)
-        same = val == FIELD and tgt_ok is not None and tgt_ok[1] == ".fields"
-        guards = [(i, bl["term"]) for i, bl in enumerate(b.blocks) if bl["term"]["k"] == "switch" and not bl["cleanup"]
-                  and not _is_drop_flag(b, bl["term"])]
+
+        def pushed_given(pu, f):
+            return len(pu) == 1 and pu[0][1] == S("self.fields") and symrun.is_struct(pu[0][2], "scale_info::ty::fields::Field") and pu[0][2][2] == f[2]
+        same_self = all(symrun.is_struct(res[k][2], B + "FieldsBuilder") and symrun.field(res[k][2], "fields") == S("self.fields") for k in res)
         if form == "PortableForm":
-            chk.expect(same and not guards and b.postdominates(pbb, 0), "R17.4", "push_field<PortableForm>", b.where(pbb),
-                       "unconditional push of the given field: %s; branches: %d" % (same, len(guards)), cfg)
-            continue
-        ok = False
-        detail = "no guard"
-        isph = b.calls_to("MetaType::is_phantom")
-        if len(isph) == 1 and len(guards) == 1:
-            ibb, it = isph[0]
-            recv = paths.access_path(b, b.operand_term(it["args"][0]))
-            recv_ok = recv is not None and recv[0] == FIELD and recv[1] == ".ty"
-            sbb, sw = guards[0]
-            cond = b.operand_term(sw["discr"])
-            ipt = b.call_term(it, bb=ibb)
-            neg = False
-            c = cond
-            if c[0] == "unop" and c[1] == "Not":
-                neg = True
-                c = c[2]
-            zero = [a[1] for a in sw["arms"] if a[0] == "0"]
-            true_t = sw["otherwise"]
-            if c == ipt and zero:
-                # push must be under "is_phantom == false"
-                push_side = true_t if neg else zero[0]
-                other = zero[0] if neg else true_t
-                ok = recv_ok and same and b.dominates(push_side, pbb) and not b.dominates(other, pbb) and push_side != other
-                detail = "push bb%d guarded by %s%s" % (pbb, "!" if neg else "", path_str(c)[:60])
-        chk.expect(ok, "R17.4", "push_field<MetaForm>", b.where(pbb), detail, cfg)
-    chk.expect(seen == {"MetaForm", "PortableForm"}, "R17.4", "push_field:both-forms", None, "push_field impls: %s" % sorted(seen), cfg)
+            ok = same_self and all(pushed_given(res[k][0], res[k][3]) and not res[k][1] for k in res)
+            chk.expect(ok, "R17.4", "push_field<PortableForm>", b.where(), "pushes the given field unconditionally, never asks is_phantom: %s" % ok, cfg)
+        else:
+            ok = same_self and pushed_given(res[False][0], res[False][3]) and not res[True][0] and all(res[k][1] == [("is_phantom", S("f.ty"))] for k in res)
+            chk.expect(ok, "R17.4", "push_field<MetaForm>", b.where(),
+                       "asks is_phantom of the given field's type; pushes the field iff it is not: not-phantom -> %d push, phantom -> %d push"
+                       % (len(res[False][0]), len(res[True][0])), cfg)
     # TypeDefTuple construction sites
     TT = "scale_info::ty::TypeDefTuple"
     for (b, bb, rv) in who.aggregates(prog, TT):
@@ -503,15 +549,13 @@ def phantom(chk, prog, cfg):
         rt = b.return_term()
         ok = False
         if is_adt_agg(rt, TT):
-            v = agg_field(rt, "fields")
-            if is_call(v, "collect", nargs=1) and is_call(v[2][0], "core::iter::traits::iterator::Iterator::filter", nargs=2):
-                it, clo = v[2][0][2]
-                cl, _ = mir.closure_of(clo)
-                cb = prog.body(cl) if cl else None
-                if is_call(it, "into_iter", nargs=1) and it[2][0] == cr.arg(b, 1) and cb is not None:
-                    crt = cb.return_term()
-                    ok = crt[0] == "unop" and crt[1] == "Not" and is_call(crt[2], "MetaType::is_phantom", nargs=1) \
-                        and unref(crt[2][2][0]) == ("arg", 2, cb.names.get(2))
+            from ..lib import loops
+            sf = loops.seq_filter(prog, b, agg_field(rt, "fields"))
+            if sf is not None:
+                it, lam = sf
+                cond, keep_when = lam.result
+                ok = unref(it) in (cr.arg(b, 1), ("var", 1, b.names.get(1))) and keep_when is False \
+                    and is_call(cond, "MetaType::is_phantom", nargs=1) and unref(cond[2][0]) == lam.item
         chk.expect(ok, "R17.4", "TypeDefTuple::new:filters-phantoms", b.where(), path_str(rt)[:200], cfg)
     for (b, bb, rv) in who.aggregates(prog, B + "FieldsBuilder"):
         p = mir.strip_generics(b.path)
